@@ -15,7 +15,7 @@ CLAIMED = {
                 text='All nestings (to the stated depth) of bare block / if / else-if / while / for over list, string, object / call, with break, continue, return or nothing placed by a symbolic selector and every condition a free boolean, are explored path-wise; on each path z3 decides that stdout, exit status and the error class equal the reference semantics for ALL assignments in the path condition.',
                 design='§4 C07'),
     'C10': dict(technique='bounded symbolic execution of the MIR of main: operand pairs chosen by symbolic selectors over a pool of heap graphs with symbolic leaves, decided by z3; lock-step reference; native replay',
-                text='All ordered pairs from a pool of small heap graphs (shared children, container inside its comparand, insertion-order variants, mismatching leaves) with symbolic int/bool leaves: ==, !=, ===, !== in both orders equal the reference structural equivalence / identity, type mismatches are reported naming both types, nothing panics, and all pool values print unchanged afterwards.',
+                text='All ordered pairs from a pool of small heap graphs (shared children, container inside its comparand, insertion-order variants, mismatching leaves) with symbolic int/bool leaves: ==, !=, ===, !== in both orders equal the reference structural equivalence / identity, type mismatches are reported naming both types, nothing panics, and all pool values print unchanged afterwards. Added: `!=` evaluated first on every pair (an error exactly where `==` is one); byte pieces of multi-byte characters compared alone and inside containers.',
                 design='§4 C10'),
     'C11': dict(technique='bounded symbolic execution of the MIR of main: unconstrained i64 indices/bounds and symbolic elements over concrete lengths, decided by z3; lock-step reference; native replay',
                 text='For every sequence length up to the bound, index and both range bounds are unconstrained 64-bit solver variables (omitted bounds included): reads, slices, concatenation, element and range assignment are decided against the sequence laws of the statement on every path, including the error domain.',
@@ -39,34 +39,34 @@ CLAIMED = {
                 text='25 single and 4x6x6 two-move routes of a function value read from objects and moved through variables, arguments, lists, returns, destructuring; arities 0..4 with/without rest x 0..5 arguments; argument evaluation order; fresh parameters: `this`, results and errors equal the reference on every path.',
                 design='§4 C14'),
     'C17': dict(technique='bounded symbolic execution of the MIR of main: error kind, syntactic position and call depth chosen by symbolic selectors, decided by z3; diagnostic grammar and stack trace against the lock-step reference call stack; native replay',
-                text='67 failing constructs x top level / in function / in method, and 7 representative kinds x 29 syntactic positions x call depths: stdout = output so far, exit 103, first stderr line `<path>:<line>:<col>: [in f: ]<message>` without internal identifiers, Stacktrace lines = the reference call stack, innermost first, ending at <root>.',
+                text='67 failing constructs x top level / in function / in method, and 7 representative kinds x 29 syntactic positions x call depths: stdout = output so far, exit 103, first stderr line `<path>:<line>:<col>: [in f: ]<message>` without internal identifiers, Stacktrace lines = the reference call stack, innermost first, ending at <root>. Added: failing iterable / condition expressions; the message must not itself start with a position or function prefix (errors inside interpolation slots excepted); failures the reference does not predict (strings that are not UTF-8 used as slot values / keys) must still be one located diagnostic.',
                 design='§4 C17'),
     'C20': dict(technique='bounded symbolic execution of the MIR of main on generated declare/redeclare/assign/read/destructure programs, decided by z3; lock-step reference incl. error position and cited earlier position; native replay',
                 text='Same program space as C04 plus 4x5 redeclaration kind pairs and 12 non-bindable target kinds x 10 binding positions (exhaustive): undefined names are reported at the name, redeclarations cite the earlier position, `_` never binds, non-bindable targets are reported errors.',
                 design='§4 C04/C20'),
     'C03': dict(technique='bounded symbolic execution of the MIR of main over symbolic source bytes (evaluation stubbed at eval_prog), panic-freedom / diagnostic form / line bound decided by z3 per path; reference front end on path witnesses; native replay',
-                text='All valid-UTF-8 inputs up to 2 bytes, all 3-byte strings over a 31-character punctuation alphabet, and sampled truncations of the repository scripts followed by one symbolic byte go through the real scanner, lexer, LR driver model and generated actions: no path panics or hangs, every rejection is one `<path>:<line>:<col>:` diagnostic with line <= lines+1 and empty stdout, and acceptance equals the reference front end on every path witness.',
+                text='All valid-UTF-8 inputs up to 2 bytes, all 3-byte strings over a 31-character punctuation alphabet, and sampled truncations of the repository scripts followed by one symbolic byte go through the real scanner, lexer, LR driver model and generated actions: no path panics or hangs, every rejection is one `<path>:<line>:<col>:` diagnostic with line <= lines+1 and empty stdout, and acceptance equals the reference front end on every path witness. Added: every 4-byte run over {CR, LF, space, tab, #} before an offending token (line bound); a 2- / 3-byte character at every length constant found in the current source (+-2) inside the unexpected token; inputs that are not UTF-8 (<= 2 arbitrary bytes; bytes >= 0x80 on the first / a middle / the last line): a read error, exit 103, nothing run; the call depth of the front end on 12 kinds of flat input at 40 / 80 / 160 repetitions must be constant (a growth is confirmed natively with 200000 repetitions).',
                 design='§4 C03'),
     'C15': dict(technique='bounded symbolic execution of the MIR of main over source text with symbolic bytes inside string literals; byte-level specification as z3 terms decided per path; native replay',
-                text='Literal bodies, escapes, hex digits, bare `$`, and interpolated strings with symbolic UTF-8 text before / between / after two slots drawn from a pool of slot expressions: output equals the byte-level specification (concatenation of pieces and slot values, ->len() = byte count), lexical errors are located at the offending character, nothing panics -- for all byte values on each path.',
+                text='Literal bodies, escapes, hex digits, bare `$`, and interpolated strings with symbolic UTF-8 text before / between / after two slots drawn from a pool of slot expressions: output equals the byte-level specification (concatenation of pieces and slot values, ->len() = byte count), lexical errors are located at the offending character, nothing panics -- for all byte values on each path. Added: slot sources whose string literals contain escaped backslashes / quotes / dollars; slots whose value is the empty string.',
                 design='§4 C15'),
     'C18': dict(technique='bounded symbolic execution of the MIR of main over symbolic source bytes: scanner-position invariant at every Scanner::loc() call and shift lemma for layout prefixes as z3 formulas decided per path; reference front end on witnesses; native replay',
-                text='(a) For every input up to the byte bound, each (line, col) the scanner hands out equals the true position of the current character (formula over the symbolic bytes: LF, CR, tab, multi-byte characters); (b) syntax errors are located at the offending character / token (reference front end per path witness); (c) a failing tail preceded by symbolic layout bytes, a comment with arbitrary text, a multi-line string or a continuation break reports every position (diagnostic and stack trace) moved by exactly the displacement of the prefix; (d) 68 expression / statement contexts for undefined names, operator errors and call errors, at top level and inside a function, report the position the statement prescribes (lock-step reference).',
+                text='(a) For every input up to the byte bound, each (line, col) the scanner hands out equals the true position of the current character (formula over the symbolic bytes: LF, CR, tab, multi-byte characters); (b) syntax errors are located at the offending character / token (reference front end per path witness); (c) a failing tail preceded by symbolic layout bytes, a comment with arbitrary text, a multi-line string or a continuation break reports every position (diagnostic and stack trace) moved by exactly the displacement of the prefix; (d) 68 expression / statement contexts for undefined names, operator errors and call errors, at top level and inside a function, report the position the statement prescribes (lock-step reference). Added: calls inside the arguments of a failing call; chains of one operator; names in parentheses; a syntax error whose unexpected token is a line break, with a symbolic trailing comment in front of it (the report must not change).',
                 design='§4 C18'),
     'C08': dict(technique='bounded symbolic execution of the real front end (Lexer MIR, LR driver model, generated parser actions MIR) on operator sequences with symbolic operator selectors; AST compared with the tier-rule reference parser; parenthesisation laws; native evaluation',
-                text='For operand (op operand)^k with every operator position ranging over all 16 binary-operator tokens (k <= 2 exhaustive, k = 3 over a tier-covering subset in quick / all in thorough) and four operand sets incl. negative literals and every postfix form: the AST the generated parser builds (grouping, operator variant, operand order, operator position) equals the tree of the tier rule; wrapping any group in parentheses and re-parsing the minimal print-out give the same tree.',
+                text='For operand (op operand)^k with every operator position ranging over all 16 binary-operator tokens (k <= 2 exhaustive, k = 3 over a tier-covering subset in quick / all in thorough) and four operand sets incl. negative literals and every postfix form: the AST the generated parser builds (grouping, operator variant, operand order, operator position) equals the tree of the tier rule; wrapping any group in parentheses and re-parsing the minimal print-out give the same tree. Added: an operand set with adjacent literals after a name; a parenthesised variant that parses differently is run natively beside the original.',
                 design='§4 C08'),
     'C09': dict(technique='bounded symbolic execution of the real Lexer (MIR) on pairs of texts that differ only in symbolic layout bytes; token-stream equality decided by z3 per path; native comparison of both texts as scripts',
-                text='A line break (with symbolic spaces / tabs / CRs and comments around it) after each of the 25 continuation tokens lexes as no break, after each of 27 other tokens as `;`; symbolic whitespace, comment and terminator holes at token gaps of repository scripts leave the token stream unchanged; digit strings with and without `_` and an ASCII character vs its \\xHH escape give equal payloads (solver-checked terms).',
+                text='A line break (with symbolic spaces / tabs / CRs and comments around it) after each of the 25 continuation tokens lexes as no break, after each of 27 other tokens as `;`; symbolic whitespace, comment and terminator holes at token gaps of repository scripts leave the token stream unchanged; digit strings with and without `_` and an ASCII character vs its \\xHH escape give equal payloads (solver-checked terms). Added: six spellings of one whole program through main (LF / CRLF line ends, raw CR / LF / CRLF inside a string literal against its \\xHH spelling, blank and comment lines), each in lock-step with the reference.',
                 design='§4 C09'),
     'C01': dict(technique='bounded symbolic execution of the MIR of main on compositions of every ordered pair of documented constructs with a symbolic integer routed across the boundary, decided by z3; lock-step complete reference semantics; native replay',
-                text='Bounded compositional claim: 14 documented constructs (operators, block, if, while, for, function, closure, list, object, string/interpolation, destructuring, spread, this, type functions) singly, in sampled (quick) / all (thorough) ordered pairs and sampled triples, each routing one unconstrained symbolic i64 inwards and outwards (values, overflow errors with stack traces, break/continue), plus generated programs over the whole feature set (kind-tracking grammar, tracing calls, identity observations; symbolic leaves; at most 2^7 paths each): stdout, exit status and error class equal the complete reference semantics on every path. Depth beyond the bound is outside the claim.',
+                text='Bounded compositional claim: 14 documented constructs (operators, block, if, while, for, function, closure, list, object, string/interpolation, destructuring, spread, this, type functions) singly, in sampled (quick) / all (thorough) ordered pairs and sampled triples, each routing one unconstrained symbolic i64 inwards and outwards (values, overflow errors with stack traces, break/continue), plus generated programs over the whole feature set (kind-tracking grammar, tracing calls, identity observations; symbolic leaves; at most 2^7 paths each): stdout, exit status and error class equal the complete reference semantics on every path. Depth beyond the bound is outside the claim. Added: a cross-feature family of 55 programs picked from every construct family (this / calls, scopes, control, heap, objects, destructuring, sequences, equality, rendering, diagnostics).',
                 design='§4 C01'),
     'C02': dict(technique='bounded symbolic execution of the MIR of main: every reachable MIR assert / modelled std panic / step-budget exhaustion on a satisfiable path is a violation (replayed natively, exit 101); union over template families plus alias shapes',
-                text='Panic-freedom and termination of every path of the alias family (same cell on both sides of operators and op-assign, containers inside themselves or their comparand, printed / compared / iterated / spread / destructured), extreme integers in every position, non-ASCII text, and of the arithmetic, sequence, equality, heap and object families (thorough: all families). One open known finding: printing a self-containing value.',
+                text='Panic-freedom and termination of every path of the alias family (same cell on both sides of operators and op-assign, containers inside themselves or their comparand, printed / compared / iterated / spread / destructured), extreme integers in every position, non-ASCII text, and of the arithmetic, sequence, equality, heap and object families (thorough: all families). One open known finding: printing a self-containing value. Added to the quick tier: the binary-operator x operand-kind matrix, built-in functions called with too few / too many arguments, and the cross-feature family (one or two programs of every other family); pieces of multi-byte characters as slot values, keys and operands.',
                 design='§4 C02'),
     'C19': dict(technique='bounded symbolic execution of the MIR of main with demonic HashMap/HashSet iteration order and stubbed environment, decided by z3; lock-step reference rendering; structural closure of environment calls over the MIR; native replays under varied environment',
-                text='(a) hash iteration order is a demonic choice: all orders of 3-4 collected keys give the same output; (b) the MIR calls no environment-dependent std function outside {args, current_dir, read_to_string, print, eprint, exit}, the working directory reaches no output, three spellings of the script path differ only in the diagnostic prefix; (c) one depth-4 structure built along 6 histories, aliased vs copied children (lists and objects), scalars and empties print identically in the stated format; (d) ten scripts whose outcome could depend on an iteration order give byte-identical outcomes over all explored hash orders (decided across paths; confirmed by repeated native runs).',
+                text='(a) hash iteration order is a demonic choice: all orders of 3-4 collected keys give the same output; (b) the MIR calls no environment-dependent std function outside {args, current_dir, read_to_string, print, eprint, exit}, the working directory reaches no output, three spellings of the script path differ only in the diagnostic prefix; (c) one depth-4 structure built along 6 histories, aliased vs copied children (lists and objects), scalars and empties print identically in the stated format; (d) ten scripts whose outcome could depend on an iteration order give byte-identical outcomes over all explored hash orders (decided across paths; confirmed by repeated native runs). Added: keys and strings with quotes, backslashes, control and non-ASCII characters; empty strings in containers; 2 KiB outputs with `Write::write` modelled by its short-write contract; a memory address formatted into a string is an environment value (confirmed by repeated native runs of a script that prints function values).',
                 design='§4 C19'),
 }
 NA_REASON = 'check not built yet in this round (DESIGN.md §7 gates); no claim is made'
